@@ -68,6 +68,7 @@ type World struct {
 	AcceptTTL func(requested uint32) (uint32, error) // nil: no AcceptVoucher policy
 	OwnerMTU  *uint16
 	modState  sync.Map // token -> *modIter
+	signers   sync.Map // CA family -> certificate signer
 	CAFamily  string
 }
 
@@ -85,11 +86,10 @@ func NewWorld(state Backend) *World {
 	w.DIS = &fdo.DIServer[custom.DeviceMfgInfo]{
 		Session:  state,
 		Vouchers: state,
+		// one signer per CA for the life of the deployment, shared by all sessions (as a real
+		// manufacturing station holds it), not one per request
 		SignDeviceCertificate: func(info *custom.DeviceMfgInfo) ([]*x509.Certificate, error) {
-			if info == nil {
-				return nil, fmt.Errorf("device manufacturing info required")
-			}
-			return custom.SignDeviceCertificate(Key(w.CAFamily+"/ca"), Chain(w.CAFamily+"/ca"))(info)
+			return w.signer(w.CAFamily)(info)
 		},
 		DeviceInfo: func(ctx context.Context, info *custom.DeviceMfgInfo, _ []*x509.Certificate) (string, protocol.PublicKey, error) {
 			bits := 3072
@@ -135,6 +135,15 @@ func NewWorld(state Backend) *World {
 	}
 	w.Handler = &fdohttp.Handler{Tokens: state, DIResponder: w.DIS, TO0Responder: w.TO0S, TO1Responder: w.TO1S, TO2Responder: w.TO2S}
 	return w
+}
+
+// signer returns the deployment's certificate signer for a CA family, created once.
+func (w *World) signer(family string) func(*custom.DeviceMfgInfo) ([]*x509.Certificate, error) {
+	if f, ok := w.signers.Load(family); ok {
+		return f.(func(*custom.DeviceMfgInfo) ([]*x509.Certificate, error))
+	}
+	f, _ := w.signers.LoadOrStore(family, custom.SignDeviceCertificate(Key(family+"/ca"), Chain(family+"/ca")))
+	return f.(func(*custom.DeviceMfgInfo) ([]*x509.Certificate, error))
 }
 
 func (w *World) rvInfo() [][]protocol.RvInstruction {
@@ -227,6 +236,8 @@ type Device struct {
 	Key    crypto.Signer
 	Secret []byte
 	Cred   fdo.DeviceCredential
+	// CommonName is the subject the device asked for in its CSR
+	CommonName string
 }
 
 // Hmacs returns fresh HMAC instances under the device secret.
@@ -313,8 +324,11 @@ func (w *World) NewDeviceVia(ctx context.Context, k Kind, enc protocol.KeyEncodi
 			sigAlg = x509.SHA384WithRSAPSS
 		}
 	}
+	serial := make([]byte, 8)
+	_, _ = rand.Read(serial)
+	d.CommonName = "device-" + hex.EncodeToString(serial) + ".lab"
 	csrDER, err := x509.CreateCertificateRequest(rand.Reader, &x509.CertificateRequest{
-		Subject: pkix.Name{CommonName: "device.lab"}, SignatureAlgorithm: sigAlg}, key)
+		Subject: pkix.Name{CommonName: d.CommonName}, SignatureAlgorithm: sigAlg}, key)
 	if err != nil {
 		return nil, err
 	}
@@ -322,8 +336,6 @@ func (w *World) NewDeviceVia(ctx context.Context, k Kind, enc protocol.KeyEncodi
 	if err != nil {
 		return nil, err
 	}
-	serial := make([]byte, 8)
-	_, _ = rand.Read(serial)
 	h256, h384 := d.Hmacs()
 	cred, err := fdo.DI(ctx, transport, custom.DeviceMfgInfo{
 		KeyType: k.Type, KeyEncoding: enc, SerialNumber: hex.EncodeToString(serial), DeviceInfo: "labdev",
